@@ -19,6 +19,14 @@ MODS = {
                     'class Circle(Shape):\n    radius = 3\n    def area(self):\n        self.extra = 4\n        return self.radius\n'
                     'def make():\n    return Circle()\nvalue = make()\nalias = value\n',
     'usesmod.py': 'from shapesmod import *\nthing = Shape()\nthing.tag = 1\n',
+    'pkgq/__init__.py': '',
+    'pkgq/far.py': 'farval = 1\n',
+    'pkgq/sub/__init__.py': '',
+    'pkgq/sub/near.py': 'nearval = 2\n',
+    'factories.py': 'class Alpha(object):\n    alpha_attr = 1\nclass Beta(object):\n    beta_attr = 2\n'
+                    'def make_alpha(n):\n    if n:\n        return Alpha()\n    return make_beta(n)\n'
+                    'def make_beta(n):\n    if n:\n        return Beta()\n    return make_alpha(n)\n'
+                    'first = make_alpha(0)\nsecond = make_beta(0)\n',
 }
 REQUESTS = [
     ('assist', 'from shapesmod import Shape\nShape().', (2, 8)),
@@ -33,6 +41,11 @@ REQUESTS = [
     ('lint', 'from shapesmod import *\nprint(value, Shape, nothing)\n', None),
     ('assist', 'import usesmod\nusesmod.thing.', (2, 14)),
     ('assist', 'from usesmod import Shape\nShape.', (2, 6)),
+    ('assist', 'from . import near\nnear.', (2, 5), 'pkgq/sub/mod.py'),
+    ('assist', 'from .. import far\nfar.', (2, 4), 'pkgq/sub/mod.py'),
+    ('location', 'from ..far import farval\nfarval', (2, 3), 'pkgq/sub/mod.py'),
+    ('assist', 'import factories\nfactories.first.', (2, 16)),
+    ('assist', 'import factories\nfactories.second.', (2, 17)),
 ]
 NREQ = len(REQUESTS)
 
@@ -40,13 +53,14 @@ NREQ = len(REQUESTS)
 def materialise(path):
     os.makedirs(path, exist_ok=True)
     for rel, text in MODS.items():
+        os.makedirs(os.path.dirname(os.path.join(path, rel)), exist_ok=True)
         with open(os.path.join(path, rel), 'w') as f:
             f.write(text)
 
 
 def ask(project, r):
-    kind, src, pos = REQUESTS[r]
-    fn = os.path.join(ROOT, 'main.py')
+    kind, src, pos = REQUESTS[r][:3]
+    fn = os.path.join(ROOT, REQUESTS[r][3] if len(REQUESTS[r]) > 3 else 'main.py')
     with project.check_changes():
         if kind == 'assist':
             return assist(project, src, pos, fn)
